@@ -13,11 +13,12 @@ def WFParam (p : Param) : Prop :=
   | none => True
 
 /-- arguments of a dependency: well-formed expressions; an argument after the first must not begin
-with a token that would continue its predecessor (`(`, `/`, `+`, `&&`, `||`) -/
+with a token that would continue its predecessor: an operator `/`, `+`, `&&`, `||` - or, when the
+predecessor ends with an identifier, `(` (a call) or, after `x`, a string (a shell-expanded literal) -/
 def WFArgs : List Expr → Prop
   | [] => True
   | [e] => WF e
-  | e :: e' :: es => WF e ∧ Stop 3 (printE e') ∧ WFArgs (e' :: es)
+  | e :: e' :: es => WF e ∧ Stop 3 (printE e') ∧ After e (printE e') ∧ WFArgs (e' :: es)
 
 def WFDep (d : Dep) : Prop := WFArgs d.args
 
@@ -27,9 +28,9 @@ structure WFHeader (h : Header) : Prop where
   priors : ∀ d ∈ h.priors, WFDep d
   subsequents : ∀ d ∈ h.subsequents, WFDep d
 
-/-- what may follow a parameter: after a default no `(`, after a bare name no `=` -/
+/-- what may follow a parameter: after a default nothing its last identifier would swallow, after a bare name no `=` -/
 def AfterParam : Option Expr → List Tk → Prop
-  | some _, rest => Stop 0 rest
+  | some d, rest => After d rest
   | none, rest => rest.head? ≠ some tEquals
 
 theorem parseParam_rt (fuel : Nat) (p : Param) (hw : WFParam p) (rest : List Tk)
@@ -48,7 +49,8 @@ theorem parseParam_rt (fuel : Nat) (p : Param) (hw : WFParam p) (rest : List Tk)
   | some d =>
     simp only [WFParam] at hw
     simp only [AfterParam] at hrest
-    have hv := roundtrip_core d hw.1 0 (by omega) (by omega) fuel rest (by have := hfuel d rfl; omega) hrest
+    have hv := roundtrip_core d hw.1 0 (by omega) (by omega) fuel rest (by have := hfuel d rfl; omega)
+      (fun _ _ => rfl) hrest
     simp only [parseAt] at hv
     cases exported with
     | true => simp only [printDollar, printDefault, if_true, tDollar, tEquals, List.cons_append, List.nil_append, List.append_assoc, parseParam, hv]
@@ -71,15 +73,15 @@ structure EndsParams (rest : List Tk) : Prop where
   noIdent : ∀ n r, rest ≠ Tk.ident n :: r
   noDollar : ∀ r, rest ≠ Tk.other "Dollar" :: r
   noEquals : rest.head? ≠ some tEquals
-  noParen : Stop 0 rest
+  noParen : NoSwallow rest
 
 theorem afterParam_of_head (d : Option Expr) (rest : List Tk)
     (h : (∃ n r, rest = Tk.ident n :: r) ∨ (∃ r, rest = Tk.other "Dollar" :: r)) : AfterParam d rest := by
   rcases h with ⟨n, r, rfl⟩ | ⟨r, rfl⟩ <;> cases d <;> simp only [AfterParam]
   · intro h; simp [tEquals] at h
-  · exact stop_cons 0 _ _ (by simp [blocks])
+  · exact after_cons _ _ _ (by simp) (by simp)
   · intro h; simp [tEquals] at h
-  · exact stop_cons 0 _ _ (by simp [blocks])
+  · exact after_cons _ _ _ (by simp) (by simp)
 
 theorem parseParams_rt (vfuel : Nat) (ps : List Param) (hw : ∀ p ∈ ps, p.kind = .singular ∧ WFParam p)
     (hfuel : ∀ p ∈ ps, ∀ d, p.default = some d → 4 * d.size ≤ vfuel) (rest : List Tk) (hrest : EndsParams rest)
@@ -100,7 +102,7 @@ theorem parseParams_rt (vfuel : Nat) (ps : List Param) (hw : ∀ p ∈ ps, p.kin
         simp only [printParams, List.nil_append]
         cases p.default with
         | none => exact hrest.noEquals
-        | some d => exact hrest.noParen
+        | some d => exact after_of_noSwallow d hrest.noParen
       | cons q qs =>
         have hq := hw q (by simp)
         apply afterParam_of_head
@@ -127,7 +129,7 @@ theorem parseParams_rt (vfuel : Nat) (ps : List Param) (hw : ∀ p ∈ ps, p.kin
 /-! ### dependencies -/
 
 theorem printE_ne_nil : (e : Expr) → printE e ≠ []
-  | .str _ => by simp [printE]
+  | .str l => by rcases litTokens_cases l with ⟨cs, _, h⟩ | h <;> simp [printE, h]
   | .var _ => by simp [printE]
   | .backtick _ => by simp [printE]
   | .call _ _ => by simp [printE]
@@ -162,7 +164,13 @@ theorem parseDepArgs_rt (efuel : Nat) (args : List Expr) (hw : WFArgs args)
     have hwes : WFArgs es := by
       cases es with
       | nil => trivial
-      | cons e' es' => exact hw.2.2
+      | cons e' es' => exact hw.2.2.2
+    have hafter : After e (printArgList es ++ .rparen :: rest) := by
+      cases es with
+      | nil => exact after_cons _ _ _ (by simp) (by simp)
+      | cons e' es' =>
+        simp only [printArgList, List.append_assoc]
+        exact after_append _ (printE_ne_nil e') hw.2.2.1
     have hstop : Stop 3 (printArgList es ++ .rparen :: rest) := by
       cases es with
       | nil => exact stop_cons 3 _ _ (by simp [blocks])
@@ -170,7 +178,7 @@ theorem parseDepArgs_rt (efuel : Nat) (args : List Expr) (hw : WFArgs args)
         simp only [printArgList, List.append_assoc]
         exact stop_append _ (printE_ne_nil e') hw.2.1
     have he := roundtrip_core e hwe 3 (level_le3 e) (Nat.le_refl _) efuel (printArgList es ++ .rparen :: rest)
-      (hfuel e (by simp)) hstop
+      (hfuel e (by simp)) hstop hafter
     simp only [parseAt] at he
     have hrec := ih hwes (fun x hx => hfuel x (by simp [hx])) f' (by simp at hf; omega)
     have hne : ∀ r, printE e ++ (printArgList es ++ .rparen :: rest) ≠ Tk.rparen :: r := by
@@ -259,7 +267,7 @@ theorem parseTail_rt (h : Header) (hw : WFHeader h) (fuel : Nat) (hf : HeaderFue
 theorem afterParam_colon (d : Option Expr) (rest : List Tk) : AfterParam d (Tk.other "Colon" :: rest) := by
   cases d <;> simp only [AfterParam]
   · intro h; simp [tEquals] at h
-  · exact stop_cons 0 _ _ (by simp [blocks])
+  · exact after_cons _ _ _ (by simp) (by simp)
 
 /-- the variadic parameter -/
 theorem parseVariadic_rt (h : Header) (hw : WFHeader h) (fuel : Nat) (hf : HeaderFuel fuel h) (rest : List Tk) :
@@ -285,17 +293,17 @@ theorem endsParams_variadic (h : Header) (hw : WFHeader h) (rest : List Tk) :
   cases hv : h.variadic with
   | none =>
     simp only [printVariadic, List.nil_append]
-    exact ⟨fun n r h => by simp at h, fun r h => by simp at h, by simp [tEquals], stop_cons 0 _ _ (by simp [blocks])⟩
+    exact ⟨fun n r h => by simp at h, fun r h => by simp at h, by simp [tEquals], noSwallow_cons _ _ (by simp) (by simp)⟩
   | some v =>
     have hwv := hw.variadic v hv
     cases hk : v.kind with
     | singular => exact absurd hk hwv.1
     | plus =>
       simp only [printVariadic, printParam, printKind, hk, List.cons_append, List.nil_append, List.append_assoc]
-      exact ⟨fun n r h => by simp at h, fun r h => by simp at h, by simp [tEquals], stop_cons 0 _ _ (by simp [blocks])⟩
+      exact ⟨fun n r h => by simp at h, fun r h => by simp at h, by simp [tEquals], noSwallow_cons _ _ (by simp) (by simp)⟩
     | star =>
       simp only [printVariadic, printParam, printKind, hk, tAsterisk, List.cons_append, List.nil_append, List.append_assoc]
-      exact ⟨fun n r h => by simp at h, fun r h => by simp at h, by simp [tEquals], stop_cons 0 _ _ (by simp [blocks])⟩
+      exact ⟨fun n r h => by simp at h, fun r h => by simp at h, by simp [tEquals], noSwallow_cons _ _ (by simp) (by simp)⟩
 
 /-- **Round trip of recipe header lines.** -/
 theorem parseHeader_rt (h : Header) (hw : WFHeader h) (fuel : Nat) (hf : HeaderFuel fuel h) (rest : List Tk) :
